@@ -24,7 +24,7 @@ ASSUMPTIONS = ["dict insertion order (language guarantee) for ordered de-duplica
 TRUSTED = ["/verif/sa path enumerator, resolver and call graph"]
 
 
-def rule_send(ctx: Ctx):
+def rule_send(ctx: Ctx, rule: str = "C13.send"):
     rep = ctx.rep
     fn = ctx.fn("StateMachine.send")
     ev = fn.params[1]
@@ -49,29 +49,33 @@ def rule_send(ctx: Ctx):
                 kw = {k.arg: show(k.value) for k in src.term.keywords}
                 pos = [show(a) for a in src.term.args]
                 ok = (kw.get("id") == ev or (pos and pos[0] == ev)) and kw.get("_sm") == "self"
-                rep.check(ok, "C13.send", c.loc(), "an unknown name becomes a fresh BoundEvent of that id on this machine "
+                rep.check(ok, rule, c.loc(), "an unknown name becomes a fresh BoundEvent of that id on this machine "
                           "(processed as an unknown event)", fn.key, norm_stmt(src.node), kwargs=kw)
             elif stxt == "getattr":
                 args = [show(a) for a in src.term.args]
                 has_default = len(args) >= 3
                 isinst = any(v is True and k.startswith("isinstance(") and "Event" in k for k, v in facts.items())
                 ok = args[:2] == ["self", ev] and (declared or isinst)
-                rep.check(ok, "C13.send", c.loc(),
+                rep.check(ok, rule, c.loc(),
                           "an attribute looked up by the caller's string is called only when that string is a declared event",
                           fn.key, norm_stmt(src.node), guards=[f"{k}=={v}" for k, v in facts.items()], has_default=has_default)
             else:
-                rep.violation("C13.send", c.loc(), f"send() calls the result of `{stxt}(...)`", fn.key, norm_stmt(src.node))
+                rep.violation(rule, c.loc(), f"send() calls the result of `{stxt}(...)`", fn.key, norm_stmt(src.node))
+        if p.kind == "raise" and fired == 0:
+            rep.violation(rule, fn.loc(), "send() raises on its own, before the event was called: what happens to an event (also an unknown "
+                          "one) is decided when its turn comes in the queue - after the running transition, after the initial activation - "
+                          "not at send time", fn.key, "; ".join(f"{xshow(b.term, evs)}={b.x['taken']}" for b in p.of("branch"))[:200])
         if p.kind in ("return", "fall") and fired != 1:
-            rep.violation("C13.send", fn.loc(), "send() is the event call: every path that returns has called the looked-up (or freshly built) "
+            rep.violation(rule, fn.loc(), "send() is the event call: every path that returns has called the looked-up (or freshly built) "
                           f"event exactly once - this one calls it {fired} time(s), so what happens to the event is decided differently from `sm.<event>()`",
                           fn.key, "; ".join(f"{xshow(b.term, evs)}={b.x['taken']}" for b in p.of("branch"))[:200])
-    rep.floor("C13.send", "call sites through a looked-up/constructed event in send()", n, 2)
+    rep.floor(rule, "call sites through a looked-up/constructed event in send()", n, 2)
     # the caller's own object is never called as is (a trigger bound to another machine would fire there)
     for p in ctx.paths(fn, inline=None, exc_edges="none"):
         for c in p.calls():
             f = c.term.func
             if isinstance(f, ast.Name) and f.id == ev:
-                rep.violation("C13.send", c.loc(), "send() calls the object it was given instead of resolving the name on *this* machine "
+                rep.violation(rule, c.loc(), "send() calls the object it was given instead of resolving the name on *this* machine "
                               "(a BoundEvent of another machine fires on that machine)", fn.key, norm_stmt(c.node))
 
 
@@ -217,6 +221,9 @@ def rule_bind(ctx: Ctx, rule: str = "C13.bind"):
             ok = isinstance(v, ast.Call) and show(v.func) == "BoundEvent"
             kw = {k.arg: show(k.value) for k in v.keywords} if ok else {}
             ok = ok and kw.get("id") == "self.id" and kw.get("name") == "self.name" and kw.get("_sm") == inst
+            # ... and nothing else: a bound event that carried the class-level transitions would let `sm.event.after(f)` write into
+            # the definition every instance shares
+            ok = ok and not v.args and set(kw) <= {"id", "name", "_sm"}
             rep.check(bool(ok), rule, g.loc(), "on an instance, a BoundEvent with the same id and name, tied to that instance", g.key, f"return {show(v)}")
     rep.floor(rule, "paths of Event.__get__", n, 2)
     be = ctx.p.cls("BoundEvent")
